@@ -28,12 +28,29 @@ type Obs struct {
 	Kind string // "ENC" | "DEC" | "ERR"
 	Hex  string // ENC: encoded bytes; DEC: re-encoded bytes
 	Pos  int    // DEC: read position after decode
-	Tree *wire.Tree
 	Raw  string
+	dump string // DEC: the value text, parsed on first use (keeps memory proportional to what is looked at)
+	tree *wire.Tree
+	terr bool
 	// ERR
 	ErrKind  string // error | unsupported | load
 	ErrText  string
 	ReencErr string
+}
+
+// Tree returns the decoded value tree (nil when the driver printed something unparsable).
+func (o *Obs) Tree() *wire.Tree {
+	if o.tree == nil && !o.terr && o.dump != "" {
+		t, err := wire.ParseTree(o.dump)
+		if err != nil {
+			o.terr = true
+			o.ErrText = "unparsable dump: " + err.Error()
+		} else {
+			o.tree = t
+		}
+		o.dump = ""
+	}
+	return o.tree
 }
 
 // Cell is one (program, configuration, target) with its emitted files and, after Run, its observations.
@@ -214,14 +231,7 @@ func ParseDriverOutput(out []byte) map[string]*Obs {
 				g := strings.SplitN(f[2], " ", 2)
 				o.Pos, _ = strconv.Atoi(g[0])
 				if len(g) > 1 {
-					t, err := wire.ParseTree(g[1])
-					if err != nil {
-						o.Kind = "ERR"
-						o.ErrKind = "driver"
-						o.ErrText = "unparsable dump: " + err.Error()
-					} else {
-						o.Tree = t
-					}
+					o.dump = g[1]
 				}
 			}
 			res["DEC:"+f[1]] = o
